@@ -5,6 +5,7 @@
   correspondence ops of Drv/C08.lean (harness/props/c08.py).
 -/
 import Ladybug.Proofs.CalLemmas
+import Ladybug.Proofs.C08Hist
 
 namespace Cal
 
@@ -364,6 +365,241 @@ theorem C08_str_roundtrip (d : DT) (hv : d.valid) : DT.parseTokens d.strTokens d
   have : 1 ≤ d.day ∧ d.day ≤ monthLen true d.month ∧ d.hour ≤ 23 ∧ d.minute ≤ 59 := ⟨h3, by omega, h5, h6⟩
   rw [if_pos this]
   exact hmk
+
+
+/-! ### Round 3: operation histories on one date-time variable (Model/C08Hist.lean)
+
+  dt.py keeps no state per object and none per module.  The machine `Hist.step` is a pure function
+  of the current date-time; the theorems below say what that means for arbitrary histories, and the
+  harness compares the real classes with the machine step by step (op `hist`). -/
+
+namespace Hist
+
+/-- The value kept after a step: the result, or the old value when the call was refused. -/
+def orKeep (r : Except Err DT) (cur : DT) : DT :=
+  match r with
+  | .ok d => d
+  | .error _ => cur
+
+theorem step_cur (o : Obj) (op : Op) : (step o op).1.cur = orKeep (apply o.cur op) o.cur := by
+  unfold step orKeep
+  cases apply o.cur op <;> rfl
+
+/-- Every serial form (array, dictionary, pickle/copy, text, date + time) gives a valid date-time
+    back unchanged, 29 Feb included. -/
+theorem C08_via_identity (d : DT) (hv : d.valid) (f : Form) : viaForm d f = .ok d := by
+  cases f with
+  | array => exact C08_array_roundtrip d hv
+  | dict => exact C08_dict_roundtrip d hv
+  | reduce => exact C08_pickle_roundtrip d hv
+  | text => exact C08_str_roundtrip d hv
+  | dateAndTime =>
+    obtain ⟨h1, h2, h3, h4, h5, h6⟩ := hv
+    have hd : D.make d.month d.day d.leap = .ok ⟨d.month, d.day, d.leap⟩ :=
+      date_make_of_valid ⟨d.month, d.day, d.leap⟩ ⟨h1, h2, h3, h4⟩
+    have ht : T.make d.hour d.minute = .ok ⟨d.hour, d.minute⟩ :=
+      (C08_time_roundtrip ⟨d.hour, d.minute⟩ ⟨h5, h6⟩).1
+    simp only [viaForm, hd, ht, fromDateAndTime]
+    exact make_of_valid d ⟨h1, h2, h3, h4, h5, h6⟩
+
+/-- **History refines fresh.**  After ANY history of operations (constructors of either year kind,
+    offsets, refused calls, changes of the leap flag, serial trips, reads – in any order and
+    repetition) the current date-time is valid and is exactly the fresh object built from its
+    public state: from its (leap flag, minute of the year) by `from_moy`, from its five fields by
+    the constructor, and through every serial form.  Hence every observation after the history
+    equals the observation of that fresh object. -/
+theorem C08_history_refines_fresh (o : Obj) (hv : o.cur.valid) (ops : List Op) :
+    (run o ops).cur.valid ∧
+    fromMoy (run o ops).cur.leap (run o ops).cur.moy = .ok (run o ops).cur ∧
+    DT.make (run o ops).cur.month (run o ops).cur.day (run o ops).cur.hour (run o ops).cur.minute
+      (run o ops).cur.leap = .ok (run o ops).cur ∧
+    ∀ f, viaForm (run o ops).cur f = .ok (run o ops).cur := by
+  have h := run_valid hv ops
+  exact ⟨h, C08_moy_fromMoy _ h, make_of_valid _ h, C08_via_identity _ h⟩
+
+/-- Observation form of the previous theorem: whatever fresh object is built from the final public
+    state reads the same on every index the property speaks about. -/
+theorem C08_history_observation (o : Obj) (hv : o.cur.valid) (ops : List Op) (d' : DT)
+    (h : fromMoy (run o ops).cur.leap (run o ops).cur.moy = .ok d') :
+    observe d' = observe (run o ops).cur := by
+  rw [(C08_history_refines_fresh o hv ops).2.1] at h
+  cases h; rfl
+
+/-- **Refused operations preserve.**  An operation the code refuses (raises) leaves the state – hence
+    every later observation – exactly as if it had not been attempted. -/
+theorem C08_refused_preserves (o : Obj) (op : Op) (e : Err) (h : apply o.cur op = .error e)
+    (rest : List Op) :
+    step o op = (o, .refused e) ∧ run o (op :: rest) = run o rest ∧
+      trace o (op :: rest) = .refused e :: trace o rest := by
+  have hs : step o op = (o, .refused e) := by unfold step; rw [h]
+  refine ⟨hs, ?_, ?_⟩
+  · simp only [run, hs]
+  · simp only [trace, hs]
+
+/-- **Reads are pure.**  Reading returns the observation of the current date-time and changes nothing. -/
+theorem C08_read_pure (o : Obj) : step o .read = (o, .obs (observe o.cur)) := rfl
+
+/-- ... so reads may be inserted, repeated or dropped anywhere in a history (order independence). -/
+theorem C08_reads_do_not_matter (o : Obj) (ops : List Op) :
+    run o (ops.filter fun op => !op.isRead) = run o ops := by
+  induction ops generalizing o with
+  | nil => rfl
+  | cons op rest ih =>
+    cases op <;> simp only [List.filter, Op.isRead, Bool.not_true, Bool.not_false, run] <;> first
+      | exact ih _
+      | (rw [C08_read_pure]; exact ih o)
+
+/-- `from_moy` on the public state, all four ranges of the argument. -/
+theorem fromMoy_pub (cur : DT) (leap : Bool) (m : Int) :
+    pub (orKeep (fromMoy leap m) cur) = specMoy (pub cur) leap m := by
+  unfold specMoy
+  by_cases h0 : 0 ≤ m
+  · obtain ⟨n, hn⟩ := Int.eq_ofNat_of_zero_le h0
+    subst hn
+    by_cases h1 : n < minutesInYear leap
+    · obtain ⟨d, hd, _, hmoy, _, _, _, hleap⟩ := C08_fromMoy_moy leap n h1
+      have hc : (0 : Int) ≤ (n : Int) ∧ (n : Int) < (minutesInYear leap : Int) := ⟨h0, by omega⟩
+      rw [hd, if_pos hc]
+      simp only [orKeep, pub, hmoy, hleap, Int.toNat_natCast]
+    · have hr := C08_fromMoy_reject leap n (by omega)
+      have hc : ¬ ((0 : Int) ≤ (n : Int) ∧ (n : Int) < (minutesInYear leap : Int)) := by omega
+      have hc2 : ¬ ((-1440 : Int) < (n : Int) ∧ (n : Int) < 0) := by omega
+      rw [hr, if_neg hc, if_neg hc2]
+      rfl
+  · have hc : ¬ ((0 : Int) ≤ m ∧ m < (minutesInYear leap : Int)) := by omega
+    rw [if_neg hc]
+    by_cases h1 : -1440 < m
+    · obtain ⟨d, hd, _, hleap, hmoy⟩ := fromMoy_negative_band leap m h1 (by omega)
+      have hc2 : (-1440 : Int) < m ∧ m < 0 := ⟨h1, by omega⟩
+      rw [hd, if_pos hc2]
+      simp only [orKeep, pub, hleap]
+      congr 1
+      omega
+    · have hr := fromMoy_far_negative leap m (by omega)
+      have hc2 : ¬ ((-1440 : Int) < m ∧ m < 0) := by omega
+      rw [hr, if_neg hc2]
+      rfl
+
+theorem time_make_ok (h mi : Nat) (h1 : h ≤ 23) (h2 : mi ≤ 59) : T.make h mi = .ok ⟨h, mi⟩ :=
+  (C08_time_roundtrip ⟨h, mi⟩ ⟨h1, h2⟩).1
+
+theorem fromDoy_pub (d : DT) (hv : d.valid) (leap : Bool) (k : Int) :
+    pub (orKeep (apply d (.fromDoy leap k)) d) = specDoy (pub d) leap k := by
+  obtain ⟨h1, h2, h3, h4, h5, h6⟩ := hv
+  have ht := time_make_ok d.hour d.minute h5 h6
+  unfold specDoy
+  by_cases hk : 1 ≤ k ∧ k ≤ (daysInYear leap : Int)
+  · obtain ⟨n, hn⟩ := Int.eq_ofNat_of_zero_le (show 0 ≤ k by omega)
+    subst hn
+    obtain ⟨da, hda, hdv, hdoy, hleap⟩ := C08_fromDoy_doy leap n (by omega) (by omega)
+    obtain ⟨g1, g2, g3, g4⟩ := hdv
+    have hmk : DT.make da.month da.day d.hour d.minute da.leap = .ok ⟨da.month, da.day, d.hour, d.minute, da.leap⟩ :=
+      make_of_valid ⟨da.month, da.day, d.hour, d.minute, da.leap⟩ ⟨g1, g2, g3, g4, h5, h6⟩
+    rw [if_pos hk]
+    rw [hleap] at hmk
+    have e1 : daysBefore leap da.month + da.day = n := by rw [← hleap]; exact hdoy
+    simp only [apply, hda, ht, fromDateAndTime, hleap, hmk, orKeep, pub, Int.toNat_natCast]
+    congr 1
+    simp only [DT.moy, DT.intHoy, DT.doy]
+    omega
+  · rw [if_neg hk]
+    have herr : ∃ e, fromDoy leap k = .error e := by
+      by_cases hneg : k < 0
+      · exact ⟨.value, by simp only [fromDoy, hneg, if_true]⟩
+      · obtain ⟨n, hn⟩ := Int.eq_ofNat_of_zero_le (show 0 ≤ k by omega)
+        subst hn
+        exact C08_fromDoy_reject leap n (by omega)
+    obtain ⟨e, he⟩ := herr
+    simp only [apply, he, orKeep]
+
+theorem setMod_pub (d : DT) (hv : d.valid) (m : Nat) :
+    pub (orKeep (apply d (.setMod m)) d) = specMod (pub d) m := by
+  obtain ⟨h1, h2, h3, h4, h5, h6⟩ := hv
+  have hd : D.make d.month d.day d.leap = .ok ⟨d.month, d.day, d.leap⟩ :=
+    date_make_of_valid ⟨d.month, d.day, d.leap⟩ ⟨h1, h2, h3, h4⟩
+  unfold specMod
+  by_cases hm : m < 1440
+  · have ht : fromMod m = .ok ⟨m / 60, m % 60⟩ := time_make_ok (m / 60) (m % 60) (by omega) (by omega)
+    have hmk : DT.make d.month d.day (m / 60) (m % 60) d.leap = .ok ⟨d.month, d.day, m / 60, m % 60, d.leap⟩ :=
+      make_of_valid ⟨d.month, d.day, m / 60, m % 60, d.leap⟩ ⟨h1, h2, h3, h4, (by show m / 60 ≤ 23; omega), (by show m % 60 ≤ 59; omega)⟩
+    rw [if_pos hm]
+    simp only [apply, hd, ht, fromDateAndTime, hmk, orKeep, pub]
+    congr 1
+    simp only [DT.moy, DT.intHoy, DT.doy]
+    omega
+  · rw [if_neg hm]
+    have ht : fromMod m = .error .value := by
+      unfold fromMod T.make normHM
+      have a : m % 60 / 60 = 0 := by omega
+      have hnv : ¬ (⟨m / 60 + m % 60 / 60, m % 60 % 60⟩ : T).valid := by
+        unfold T.valid; simp only [a]; omega
+      exact if_neg hnv
+    simp only [apply, hd, ht, orKeep]
+
+theorem step_index_spec (o : Obj) (hv : o.cur.valid) (op : Op) (hi : op.isIndex = true) :
+    pub (step o op).1.cur = specStep (pub o.cur) op := by
+  rw [step_cur]
+  cases op with
+  | fromMoy leap m => exact fromMoy_pub o.cur leap m
+  | fromHoy leap x => exact fromMoy_pub o.cur leap (Py.round x)
+  | addMin k => exact fromMoy_pub o.cur o.cur.leap ((o.cur.moy : Int) + k)
+  | subMin k => exact fromMoy_pub o.cur o.cur.leap ((o.cur.moy : Int) + -k)
+  | addHour x => exact fromMoy_pub o.cur o.cur.leap ((o.cur.moy : Int) + Py.truncRat x)
+  | subHour x => exact fromMoy_pub o.cur o.cur.leap ((o.cur.moy : Int) + Py.truncRat (-x))
+  | via f =>
+    simp only [apply, C08_via_identity o.cur hv f, orKeep, specStep]
+  | read => rfl
+  | fromDoy leap k => exact fromDoy_pub o.cur hv leap k
+  | setMod m => exact setMod_pub o.cur hv m
+  | make _ _ _ _ _ => cases hi
+  | setLeap _ => cases hi
+
+/-- **Histories of index operations follow integer arithmetic.**  For every history made of
+    from_moy / from_hoy / from_doy / from_mod / add / sub minutes / hours, serial trips and reads – refused calls and both
+    year kinds included – the (leap flag, minute of the year) of the current date-time is the one
+    obtained by plain integer arithmetic on the public state (`specRun`): a refused step keeps it, an
+    accepted step sets it to the requested minute.  With `C08_history_refines_fresh` this fixes
+    every observation after such a history. -/
+theorem C08_history_index_arith (o : Obj) (hv : o.cur.valid) (ops : List Op)
+    (hi : ∀ op ∈ ops, op.isIndex = true) :
+    pub (run o ops).cur = specRun (pub o.cur) ops := by
+  induction ops generalizing o with
+  | nil => rfl
+  | cons op rest ih =>
+    simp only [run, specRun]
+    rw [← step_index_spec o hv op (hi op (List.mem_cons_self ..))]
+    exact ih (step o op).1 (step_valid hv op) (fun op' h' => hi op' (List.mem_cons_of_mem _ h'))
+
+/-- Add then subtract inside a history: when the sum stays inside the year the two steps cancel
+    (state and all later observations), whatever happened before. -/
+theorem C08_history_add_sub (o : Obj) (hv : o.cur.valid) (pre : List Op) (k : Int)
+    (h0 : 0 ≤ ((run o pre).cur.moy : Int) + k)
+    (h1 : ((run o pre).cur.moy : Int) + k < minutesInYear (run o pre).cur.leap) :
+    run o (pre ++ [.addMin k, .subMin k]) = run o pre := by
+  have hrun : ∀ (o : Obj) (a b : List Op), run o (a ++ b) = run (run o a) b := by
+    intro o a b
+    induction a generalizing o with
+    | nil => rfl
+    | cons x xs ih => exact ih _
+  rw [hrun]
+  have hvp := run_valid hv pre
+  obtain ⟨e, he, _, _, hsub⟩ := C08_add_sub_minute (run o pre).cur hvp k h0 h1
+  have s1 : step (run o pre) (.addMin k) = (⟨e⟩, .obs (observe e)) := by
+    unfold step; simp only [apply, he]
+  have s2 : step ⟨e⟩ (.subMin k) = (⟨(run o pre).cur⟩, .obs (observe (run o pre).cur)) := by
+    unfold step; simp only [apply, hsub]
+  simp only [run, s1, s2]
+
+end Hist
+
+example : (Hist.run Hist.Obj.fresh [.fromMoy true 86399, .setLeap false, .addMin 1]).cur = ⟨3, 1, 0, 0, true⟩ := by
+  decide
+example : Hist.apply ⟨2, 29, 23, 59, true⟩ (.setLeap false) = .error .value := by decide
+example : Hist.apply ⟨12, 31, 23, 59, true⟩ (.addMin 1) = .error .value := by decide
+example : Hist.specRun (false, 0) [.fromMoy true 527039, .addMin 1, .fromMoy false 525600, .subMin 1439] =
+    (true, 525600) := by decide
+example : Hist.specRun (false, 61) [.fromDoy true 366, .fromDoy true 367, .setMod 1440, .setMod 7] =
+    (true, 525607) := by decide
 
 /-! ### Non-vacuity: the hypotheses above are met by concrete non-trivial states -/
 
